@@ -8,8 +8,12 @@ package main
 // full response, no probe reaches any backend after it returned.
 
 import (
+	"bufio"
 	"bytes"
 	"fmt"
+	"io"
+	"net"
+	"net/http"
 	"time"
 
 	"github.com/0xReLogic/Helios/internal/config"
@@ -74,9 +78,38 @@ func runSysStop(x *X) {
 		plans[ex.id] = p
 		all = append(all, ex)
 	}
+	// an Upgrade (WebSocket) session that is open when the signal arrives and stays open:
+	// http.Server does not track hijacked connections; shutdown must neither wait for it nor hang
+	wsOpen := c.Intn(4, "open-websocket") == 0
+	if wsOpen {
+		x.Fault("open-upgrade-session-at-shutdown")
+		wsBackendHook = func(conn net.Conn, br *bufio.Reader, req *http.Request) {
+			io.WriteString(conn, "HTTP/1.1 101 Switching Protocols\r\nUpgrade: websocket\r\nConnection: Upgrade\r\n\r\n")
+			buf := make([]byte, 256)
+			for {
+				if _, err := conn.Read(buf); err != nil {
+					return
+				}
+			}
+		}
+		defer func() { wsBackendHook = nil }()
+		go func() {
+			conn, err := env.net.Dial("wsclient", "198.51.100.99:45000", heliosAddr, 0, nil)
+			if err != nil {
+				return
+			}
+			io.WriteString(conn, "GET /ws HTTP/1.1\r\nHost: helios.test\r\nUpgrade: websocket\r\nConnection: Upgrade\r\nSec-WebSocket-Key: dGhlIHNhbXBsZSBub25jZQ==\r\nSec-WebSocket-Version: 13\r\n\r\n")
+			buf := make([]byte, 256)
+			for {
+				if _, err := conn.Read(buf); err != nil {
+					return
+				}
+			}
+		}()
+	}
 	stopAfter := c.Intn(12, "stop-after-steps")
 	second := c.Intn(3, "second-shutdown") == 0
-	x.Sample["config"] = fmt.Sprintf("shutdown_timeout=%ds active=%v clients=%d exchanges=%d stop_after_steps=%d second_call=%v", T, o.active, nClients, n, stopAfter, second)
+	x.Sample["config"] = fmt.Sprintf("shutdown_timeout=%ds active=%v clients=%d exchanges=%d stop_after_steps=%d second_call=%v open_websocket=%v", T, o.active, nClients, n, stopAfter, second, wsOpen)
 	x.Logf("sysstop %s", x.Sample["config"])
 	var invAt, retAt time.Duration
 	invoked, returned := false, false
